@@ -1,4 +1,5 @@
 import CaddyModel.C18.Cost
+import CaddyModel.C18.Spec
 
 namespace CaddyModel.C18
 
@@ -74,73 +75,94 @@ theorem closeCost_unclosed {inp : Bytes} {i : Nat} (h : findClose inp i = .unclo
       omega
     · cases h
 
-/-- potential: 2 units per remaining byte plus one "scan to the end" per remaining unclosed budget -/
-def bound (len i uc : Nat) : Nat := 2 * (len - i) + (102 - uc) * (len + 2)
+/-! ### the linear bound, in every mode
 
-theorem costLoop_le (inp : Bytes) (env : Env) (m : Mode)
-    (hm : m.unknownEmpty = true ∨ m.errUnknown = true) :
-    ∀ (fuel i uc : Nat), i ≤ inp.length → uc ≤ 101 →
-      costLoop inp env m fuel i uc ≤ bound inp.length i uc := by
+Potential argument. A search that finds a brace (`miss` at `i`, result `e`) walks over `(i, e]` and leaves
+`ce = e`; until the cursor has passed `e` every opener reuses `e` for free, so the next paid search starts
+behind `e`: the walked stretches are disjoint, `len - max i ce` pays for them. A search that finds nothing
+costs at most `len + 2` and raises `unclosedCount`, which stops the scan above 100. Two units per
+iteration pay for the visit of the byte and the `+ 1` of a search. -/
+
+/-- potential: two units per remaining byte, one per byte behind the remembered closing brace, and one
+    "scan to the end" per remaining unit of the unclosed budget -/
+def bound (len i uc ce : Nat) : Nat :=
+  2 * (len - i) + (len - max i ce) + (101 - uc) * (len + 2) + 1
+
+theorem searchCost_at {inp : Bytes} {i ce e : Nat} (h : closeAt inp i ce = .at e) :
+    (i < ce ∧ e = ce ∧ searchCost inp i ce = 0) ∨
+    (ce ≤ i ∧ i ≤ e ∧ e < inp.length ∧ searchCost inp i ce ≤ e - i + 1) := by
+  unfold closeAt at h
+  unfold searchCost
+  split at h
+  · rename_i hgt
+    cases h
+    exact Or.inl ⟨hgt, rfl, by rw [if_pos hgt]⟩
+  · rename_i hgt
+    have hb := findClose_bounds h
+    exact Or.inr ⟨by omega, hb.1, hb.2, by rw [if_neg hgt]; exact closeCost_at h⟩
+
+theorem searchCost_unclosed {inp : Bytes} {i ce : Nat} (h : closeAt inp i ce = .unclosed) :
+    ce ≤ i ∧ searchCost inp i ce ≤ inp.length - i + 1 := by
+  unfold closeAt at h
+  unfold searchCost
+  split at h
+  · cases h
+  · rename_i hgt
+    exact ⟨by omega, by rw [if_neg hgt]; exact closeCost_unclosed h⟩
+
+theorem costLoop_le (inp : Bytes) (env : Env) (m : Mode) :
+    ∀ (fuel i uc ce : Nat), uc ≤ 101 →
+      costLoop inp env m fuel i uc ce ≤ bound inp.length i uc ce := by
   intro fuel
   induction fuel with
-  | zero => intro i uc _ _; simp [costLoop]
+  | zero => intro i uc ce _; simp [costLoop]
   | succ fuel ih =>
-    intro i uc hi huc
+    intro i uc ce huc
     unfold costLoop
     split
     · rename_i hlt
-      have step1 : 1 + bound inp.length (i + 1) uc ≤ bound inp.length i uc := by
+      have step1 : 1 + bound inp.length (i + 1) uc ce ≤ bound inp.length i uc ce := by
         unfold bound; omega
       split
-      · have := ih (i + 1) uc (by omega) huc; omega
+      · have := ih (i + 1) uc ce huc; omega
       · split
-        · have := ih (i + 1) uc (by omega) huc; omega
+        · have := ih (i + 1) uc ce huc; omega
         · split
           · -- uc > 100
-            unfold bound
-            have : (102 - uc) * (inp.length + 2) ≥ inp.length + 2 := by
-              have : 102 - uc ≥ 1 := by omega
-              exact Nat.le_mul_of_pos_left _ (by omega)
-            omega
+            unfold bound; omega
           · rename_i huc'
             have hucle : uc ≤ 100 := by omega
-            have hmul : (102 - uc) * (inp.length + 2) = (101 - uc) * (inp.length + 2) + (inp.length + 2) := by
-              have : 102 - uc = (101 - uc) + 1 := by omega
+            have hmul : (101 - uc) * (inp.length + 2) = (101 - (uc + 1)) * (inp.length + 2) + (inp.length + 2) := by
+              have : 101 - uc = (101 - (uc + 1)) + 1 := by omega
               rw [this, Nat.add_mul, Nat.one_mul]
-            have hmul2 : (101 - uc) * (inp.length + 2) ≥ inp.length + 2 := by
-              have : 101 - uc ≥ 1 := by omega
-              exact Nat.le_mul_of_pos_left _ (by omega)
             split
-            · -- unclosed
+            · -- no closing brace: pays with one unit of the unclosed budget
               rename_i hc
-              have hcc := closeCost_unclosed hc
-              have := ih (i + 1) (uc + 1) (by omega) (by omega)
+              obtain ⟨hce, hcc⟩ := searchCost_unclosed hc
+              have := ih (i + 1) (uc + 1) ce (by omega)
               unfold bound at *
-              have e1 : 102 - (uc + 1) = 101 - uc := by omega
-              rw [e1] at this
               omega
             · rename_i e hc
-              have hcc := closeCost_at hc
-              have hb := findClose_bounds hc
-              split
-              · rename_i key hkey
-                split
+              -- the two continuations: behind the opener (unknown kept) / behind the closing brace
+              have hkeep : 1 + searchCost inp i ce + bound inp.length (i + 1) uc e ≤ bound inp.length i uc ce := by
+                rcases searchCost_at hc with ⟨h1, h2, h3⟩ | ⟨h1, h2, h3, h4⟩
+                · subst h2; unfold bound; omega
                 · unfold bound; omega
+              have hsubst : 1 + searchCost inp i ce + bound inp.length (e + 1) uc e ≤ bound inp.length i uc ce := by
+                rcases searchCost_at hc with ⟨h1, h2, h3⟩ | ⟨h1, h2, h3, h4⟩
+                · subst h2; unfold bound; omega
+                · unfold bound; omega
+              have hstop : 1 + searchCost inp i ce ≤ bound inp.length i uc ce := by omega
+              split
+              · split
+                · exact hstop
                 · split
-                  · -- keep-unknown: excluded by the mode hypothesis
-                    rename_i h1 h2
-                    exfalso
-                    rcases hm with hm | hm
-                    · simp [hm] at h2
-                    · simp [hm] at h1
-                      simp [h1] at h2
+                  · have := ih (i + 1) uc e huc; omega
                   · split
-                    · unfold bound; omega
+                    · exact hstop
                     · split
-                      · unfold bound; omega
-                      · have := ih (e + 1) uc (by omega) huc
-                        unfold bound at *
-                        omega
+                      · exact hstop
+                      · have := ih (e + 1) uc e huc; omega
               · omega
     · omega
 
@@ -150,52 +172,104 @@ theorem costLoop_le (inp : Bytes) (env : Env) (m : Mode)
 IS `loop` (`loopC_fst`) and the second IS `costLoop` (`loopC_snd`), so `cost` counts the visits of the
 very loop the other theorems are about, not of a look-alike. -/
 
-def loopC (inp : Bytes) (env : Env) (m : Mode) : (fuel i lwc uc : Nat) → (sb : Bytes) → Res × Nat
-  | 0, _, _, _, _ => (.fuel, 0)
-  | fuel + 1, i, lwc, uc, sb =>
+def loopC (inp : Bytes) (env : Env) (m : Mode) : (fuel i lwc uc ce : Nat) → (sb : Bytes) → Res × Nat
+  | 0, _, _, _, _, _ => (.fuel, 0)
+  | fuel + 1, i, lwc, uc, ce, sb =>
   if i < inp.length then
     if escAt inp i then
       match slice inp lwc (i - 1) with
       | none => (.panic, 1)
-      | some s => ((loopC inp env m fuel (i + 1) i uc (sb ++ s)).1, 1 + (loopC inp env m fuel (i + 1) i uc (sb ++ s)).2)
+      | some s => ((loopC inp env m fuel (i + 1) i uc ce (sb ++ s)).1, 1 + (loopC inp env m fuel (i + 1) i uc ce (sb ++ s)).2)
     else if !openAt inp i then
-      ((loopC inp env m fuel (i + 1) lwc uc sb).1, 1 + (loopC inp env m fuel (i + 1) lwc uc sb).2)
+      ((loopC inp env m fuel (i + 1) lwc uc ce sb).1, 1 + (loopC inp env m fuel (i + 1) lwc uc ce sb).2)
     else if uc > 100 then
       (.tooMany, 1)
     else
-      match findClose inp i with
-      | .unclosed => ((loopC inp env m fuel (i + 1) lwc (uc + 1) sb).1, 1 + closeCost inp i + (loopC inp env m fuel (i + 1) lwc (uc + 1) sb).2)
+      match closeAt inp i ce with
+      | .unclosed => ((loopC inp env m fuel (i + 1) lwc (uc + 1) ce sb).1, 1 + searchCost inp i ce + (loopC inp env m fuel (i + 1) lwc (uc + 1) ce sb).2)
       | .at e =>
         match slice inp lwc i, slice inp (i + 1) e with
         | some pre, some key =>
-          if (env key).isNone ∧ m.errUnknown then (.unknown key, 1 + closeCost inp i)
+          if (env key).isNone ∧ m.errUnknown then (.unknown key, 1 + searchCost inp i ce)
           else if (env key).isNone ∧ !m.unknownEmpty then
-            ((loopC inp env m fuel (i + 1) i uc (sb ++ pre)).1, 1 + closeCost inp i + (loopC inp env m fuel (i + 1) i uc (sb ++ pre)).2)
+            ((loopC inp env m fuel (i + 1) i uc e (sb ++ pre)).1, 1 + searchCost inp i ce + (loopC inp env m fuel (i + 1) i uc e (sb ++ pre)).2)
           else
             match m.valStr key (env key) with
-            | none => (.funcErr, 1 + closeCost inp i)
+            | none => (.funcErr, 1 + searchCost inp i ce)
             | some valStr =>
               if valStr.isEmpty then
-                if m.errEmpty then (.emptyVal key, 1 + closeCost inp i)
-                else ((loopC inp env m fuel (e + 1) (e + 1) uc (sb ++ pre ++ m.empty)).1, 1 + closeCost inp i + (loopC inp env m fuel (e + 1) (e + 1) uc (sb ++ pre ++ m.empty)).2)
-              else ((loopC inp env m fuel (e + 1) (e + 1) uc (sb ++ pre ++ valStr)).1, 1 + closeCost inp i + (loopC inp env m fuel (e + 1) (e + 1) uc (sb ++ pre ++ valStr)).2)
+                if m.errEmpty then (.emptyVal key, 1 + searchCost inp i ce)
+                else ((loopC inp env m fuel (e + 1) (e + 1) uc e (sb ++ pre ++ m.empty)).1, 1 + searchCost inp i ce + (loopC inp env m fuel (e + 1) (e + 1) uc e (sb ++ pre ++ m.empty)).2)
+              else ((loopC inp env m fuel (e + 1) (e + 1) uc e (sb ++ pre ++ valStr)).1, 1 + searchCost inp i ce + (loopC inp env m fuel (e + 1) (e + 1) uc e (sb ++ pre ++ valStr)).2)
         | _, _ => (.panic, 0)
   else
     match slice inp lwc inp.length with
     | none => (.panic, 0)
     | some s => (.ok (sb ++ s), 0)
 
-theorem loopC_fst (inp : Bytes) (env : Env) (m : Mode) (fuel i lwc uc : Nat) (sb : Bytes) :
-    (loopC inp env m fuel i lwc uc sb).1 = loop inp env m fuel i lwc uc sb := by
-  fun_induction loopC inp env m fuel i lwc uc sb <;> rw [loop] <;> simp_all
+theorem loopC_fst (inp : Bytes) (env : Env) (m : Mode) (fuel i lwc uc ce : Nat) (sb : Bytes) :
+    (loopC inp env m fuel i lwc uc ce sb).1 = loop inp env m fuel i lwc uc ce sb := by
+  fun_induction loopC inp env m fuel i lwc uc ce sb <;> rw [loop] <;> simp_all
   all_goals (try (intro hgt; omega))
   all_goals (try rw [if_neg (by omega)])
   all_goals (try (split <;> (try split) <;> simp_all))
 
-theorem loopC_snd (inp : Bytes) (env : Env) (m : Mode) (fuel i lwc uc : Nat) (sb : Bytes)
-    (h : (loopC inp env m fuel i lwc uc sb).1 ≠ .panic) :
-    (loopC inp env m fuel i lwc uc sb).2 = costLoop inp env m fuel i uc := by
-  fun_induction loopC inp env m fuel i lwc uc sb <;> rw [costLoop] <;> simp_all
+theorem loopC_snd (inp : Bytes) (env : Env) (m : Mode) (fuel i lwc uc ce : Nat) (sb : Bytes)
+    (h : (loopC inp env m fuel i lwc uc ce sb).1 ≠ .panic) :
+    (loopC inp env m fuel i lwc uc ce sb).2 = costLoop inp env m fuel i uc ce := by
+  fun_induction loopC inp env m fuel i lwc uc ce sb <;> rw [costLoop] <;> simp_all
+  all_goals (try (intro hgt; omega))
+  all_goals (try rw [if_neg (by omega)])
+  all_goals (try (split <;> (try split) <;> simp_all))
+
+/-! The same tie for the loop before the close cache: `costLoopNC` is the visit count of `loopNC`. -/
+
+def loopCNC (inp : Bytes) (env : Env) (m : Mode) : (fuel i lwc uc : Nat) → (sb : Bytes) → Res × Nat
+  | 0, _, _, _, _ => (.fuel, 0)
+  | fuel + 1, i, lwc, uc, sb =>
+  if i < inp.length then
+    if escAt inp i then
+      match slice inp lwc (i - 1) with
+      | none => (.panic, 1)
+      | some s => ((loopCNC inp env m fuel (i + 1) i uc (sb ++ s)).1, 1 + (loopCNC inp env m fuel (i + 1) i uc (sb ++ s)).2)
+    else if !openAt inp i then
+      ((loopCNC inp env m fuel (i + 1) lwc uc sb).1, 1 + (loopCNC inp env m fuel (i + 1) lwc uc sb).2)
+    else if uc > 100 then
+      (.tooMany, 1)
+    else
+      match findClose inp i with
+      | .unclosed => ((loopCNC inp env m fuel (i + 1) lwc (uc + 1) sb).1, 1 + closeCost inp i + (loopCNC inp env m fuel (i + 1) lwc (uc + 1) sb).2)
+      | .at e =>
+        match slice inp lwc i, slice inp (i + 1) e with
+        | some pre, some key =>
+          if (env key).isNone ∧ m.errUnknown then (.unknown key, 1 + closeCost inp i)
+          else if (env key).isNone ∧ !m.unknownEmpty then
+            ((loopCNC inp env m fuel (i + 1) i uc (sb ++ pre)).1, 1 + closeCost inp i + (loopCNC inp env m fuel (i + 1) i uc (sb ++ pre)).2)
+          else
+            match m.valStr key (env key) with
+            | none => (.funcErr, 1 + closeCost inp i)
+            | some valStr =>
+              if valStr.isEmpty then
+                if m.errEmpty then (.emptyVal key, 1 + closeCost inp i)
+                else ((loopCNC inp env m fuel (e + 1) (e + 1) uc (sb ++ pre ++ m.empty)).1, 1 + closeCost inp i + (loopCNC inp env m fuel (e + 1) (e + 1) uc (sb ++ pre ++ m.empty)).2)
+              else ((loopCNC inp env m fuel (e + 1) (e + 1) uc (sb ++ pre ++ valStr)).1, 1 + closeCost inp i + (loopCNC inp env m fuel (e + 1) (e + 1) uc (sb ++ pre ++ valStr)).2)
+        | _, _ => (.panic, 0)
+  else
+    match slice inp lwc inp.length with
+    | none => (.panic, 0)
+    | some s => (.ok (sb ++ s), 0)
+
+theorem loopCNC_fst (inp : Bytes) (env : Env) (m : Mode) (fuel i lwc uc : Nat) (sb : Bytes) :
+    (loopCNC inp env m fuel i lwc uc sb).1 = loopNC inp env m fuel i lwc uc sb := by
+  fun_induction loopCNC inp env m fuel i lwc uc sb <;> rw [loopNC] <;> simp_all
+  all_goals (try (intro hgt; omega))
+  all_goals (try rw [if_neg (by omega)])
+  all_goals (try (split <;> (try split) <;> simp_all))
+
+theorem loopCNC_snd (inp : Bytes) (env : Env) (m : Mode) (fuel i lwc uc : Nat) (sb : Bytes)
+    (h : (loopCNC inp env m fuel i lwc uc sb).1 ≠ .panic) :
+    (loopCNC inp env m fuel i lwc uc sb).2 = costLoopNC inp env m fuel i uc := by
+  fun_induction loopCNC inp env m fuel i lwc uc sb <;> rw [costLoopNC] <;> simp_all
   all_goals (try (intro hgt; omega))
   all_goals (try rw [if_neg (by omega)])
   all_goals (try (split <;> (try split) <;> simp_all))
